@@ -40,6 +40,31 @@ CLAIMED = {
         note=STATIC_NOTE + 'Identities are over the reals; IEEE rounding and non-numeric T are not decided. '
              'The array/scalar clause is decided up to the stated array length.',
         ref='DESIGN.md section 4 C02'),
+    'C03': dict(
+        technique='abstract interpretation of from_data/from_model with the least-squares Cp fit as an uninterpreted '
+                  'function, normal-form identities for anchoring and continuity, structural vector-shape evaluation '
+                  'of the fit functions\' return paths',
+        text='Decides the structural part of C03: for all Cp coefficients, reference values and break temperatures, '
+             'the fitted Nasa/Nasa9/Shomate object reproduces HoRT_ref and SoR_ref at T_ref (T_ref in every segment), '
+             'H and S are continuous at every break temperature (NASA-9 with 1-3/4 segments), only the integration-'
+             'constant slots are written, bounds are min/max of the data, from_model samples the reference values '
+             'from the same model at the T_ref it passes, and every return path of the Cp-fit functions has the '
+             'evaluator\'s length, zero integration-constant slots and matching powers. It does NOT decide fit quality '
+             '(tracking of the source, reproduction of same-family polynomials), which depends on polyfit/curve_fit/'
+             'Nelder-Mead on data.',
+        note=STATIC_NOTE + 'The Cp least-squares fit is an uninterpreted function returning zero integration slots '
+             '(that premise is itself checked structurally).',
+        ref='DESIGN.md section 4 C03'),
+    'C20': dict(
+        technique='abstract interpretation of the EOS getters into rational normal forms; polynomial identity of the '
+                  'cubic handed to np.roots',
+        text='Proves for all states that the ideal-gas getters are the four solutions of PV=nRT (12 solve-and-'
+             'substitute round trips), that van der Waals get_T/get_P invert each other, that the cubic given to '
+             'np.roots is Vm^2[(P+a/Vm^2)(Vm-b)-RT] so every root satisfies get_P, that gas/liquid use the max/min '
+             'real root, V=n*Vm, n=V/Vm, from_critical round-trips Tc and Pc, Vc=3nb and a=b=0 gives the ideal gas.',
+        note=STATIC_NOTE + 'np.roots is trusted to return the roots of its argument; numerics of root finding and the '
+             'low-density limit as a limit are not decided.',
+        ref='DESIGN.md section 4 C20'),
     'C12': dict(
         technique='table analysis: constant folding of literal tables + abstract interpretation of the '
                   'lookup functions (ast, exact Fractions)',
